@@ -104,6 +104,149 @@ def pick_special(rng, stats, allow_ws):
     return rng.choice(SPECIAL[cls])
 
 
+# --------------------------------------------------------------------------
+# length-aimed stratum: entry texts whose ESCAPED length sits on / next to plausible fixed-buffer sizes
+
+BOUNDARY = sorted(set(list(range(56, 73)) + list(range(124, 133)) + list(range(252, 261)) + list(range(508, 517))))
+BOUNDARY_BIG = list(range(1020, 1029))
+VARIANTS = {"plain": b"", "quote": b'"', "backslash": b"\\", "control": b"\x01", "utf8": "é".encode()}
+ALPHA = b"abcdefghijklmnopqrstuvwxyzABCDEFGHIJKLMNOPQRSTUVWXYZ0123456789"
+
+
+def esc_len(b):
+    return sum(2 if c in (34, 92) else 6 if c < 32 else 1 for c in b)
+
+
+def aimed_word(L, variant, tag=""):
+    """a spelling (no blanks, no parentheses, not an English word) whose escaped length is exactly L and which ends
+    in the variant's byte(s), so that a cut at L-1 falls inside the escape pair / sequence / UTF-8 character"""
+    tail = VARIANTS[variant]
+    body_len = L - esc_len(tail)
+    head = (f"_{L}{variant[0]}{tag}_").encode()[:max(body_len, 0)]
+    if body_len < 1:
+        return None
+    body = head + bytes(ALPHA[(i * 7 + L) % len(ALPHA)] for i in range(body_len - len(head)))
+    w = body + tail
+    assert esc_len(w) == L, (L, variant, esc_len(w))
+    return w
+
+
+def bare_sweep_scenario(stats):
+    """no decoding: every aimed spelling becomes a word of an installed alignment (levels 1 and 2)"""
+    stats["kinds"]["length-bare"] = stats["kinds"].get("length-bare", 0) + 1
+    ops, words, todo = ["init bestpath=no frate=100"], [], []
+    for L in range(8, 141):
+        for v in ("plain", "quote"):
+            todo.append(aimed_word(L, v))
+    for L in BOUNDARY + BOUNDARY_BIG:
+        for v in VARIANTS:
+            if L > 140 or v not in ("plain", "quote"):
+                todo.append(aimed_word(L, v))
+    todo = [w for w in todo if w]
+    for w in todo:
+        ops.append(f"addword {hx(w)} G,OW")
+        words.append(w.hex())
+    batch, size, t0 = [], 0, 0
+    def flush():
+        nonlocal batch, size, t0
+        if batch:
+            ops.append("barealign " + " ".join(batch))
+            ops.extend(["json 0 1", "json 0.5 2"])
+            for l in (1, 2):
+                stats["levels"][l] = stats["levels"].get(l, 0) + 1
+        batch, size, t0 = [], 0, 0
+    for w in todo:
+        batch.append(f"{hx(w)}:{t0}:3")
+        t0 += 3
+        size += len(w)
+        if len(batch) >= 12 or size > 900:
+            flush()
+    flush()
+    return {"kind": "length-bare", "ops": ops, "words": words}
+
+
+def length_decode_scenario(rng, stats, mode, targets=None, variant=None):
+    """goforward.raw aligned to four aimed spellings; JSON at all levels after every word boundary, so that the
+    hypothesis string passes through the prefixes w1, w1 w2, ... (mode "hyp": the prefix lengths are the targets;
+    mode "word": each spelling's own escaped length is a target)"""
+    stats["kinds"]["length-decode"] = stats["kinds"].get("length-decode", 0) + 1
+    variant = variant or rng.choice(list(VARIANTS))
+    need = esc_len(VARIANTS[variant]) + 1
+    if mode == "hyp":
+        if targets is None:
+            pool, targets, last = BOUNDARY[:], [], -10
+            start = rng.below(len(pool) - 8)
+            for t in pool[start:]:
+                if t - last - 1 >= need and (not targets or rng.chance(0.45)) and len(targets) < 4:
+                    targets.append(t)
+                    last = t
+            while len(targets) < 4:
+                last += need + 1 + rng.below(5)
+                targets.append(last)
+        lens = [targets[0]] + [b - a - 1 for a, b in zip(targets, targets[1:])]
+    else:
+        lens = targets or [rng.choice(BOUNDARY) for _ in range(4)]
+    bestpath = rng.choice(["yes", "no"])
+    stats["bestpath"][bestpath] = stats["bestpath"].get(bestpath, 0) + 1
+    stats["init_frate"][100] = stats["init_frate"].get(100, 0) + 1
+    stats["audio"]["speech"] = stats["audio"].get("speech", 0) + 1
+    ops, words, chain = [f"init bestpath={bestpath} frate=100"], [], []
+    for i, (L, (_, pron)) in enumerate(zip(lens, BASE)):
+        w = aimed_word(max(L, need), variant, tag=str(i))
+        ops.append(f"addword {hx(w)} {pron}")
+        words.append(w.hex())
+        chain.append(w)
+    ops.append("align " + hx(b" ".join(chain)))
+    ops.append("start")
+    pos = 0
+    for cut in (13000, 21000, 27000, 36000, NSAMP):
+        cut = min(cut, NSAMP)
+        if cut > pos:
+            ops.append(f"raw {vlib.REPO / RAW} {pos} {cut - pos} 2048")
+            pos = cut
+        ops += ["json 0 0", "json 0 1", "json 0 2"]
+        for l in (0, 1, 2):
+            stats["levels"][l] = stats["levels"].get(l, 0) + 1
+    ops.append("end")
+    ops += ["json 0 0", "json 1.25 1", "json 0 2"]
+    for l in (0, 1, 2):
+        stats["levels"][l] = stats["levels"].get(l, 0) + 1
+    return {"kind": "length-decode", "ops": ops, "words": words}
+
+
+def length_scenarios(rng, tier, stats):
+    scs = [bare_sweep_scenario(stats)]
+    # hypothesis prefixes on / next to the power-of-two sizes, always
+    for d in (-1, 0, 1):
+        scs.append(length_decode_scenario(rng, stats, "hyp", targets=[64 + d, 128 + d, 256 + d, 512 + d], variant="plain"))
+    if tier == "quick":
+        scs.append(length_decode_scenario(rng, stats, "hyp", targets=[64, 128, 256, 512], variant=rng.choice(["quote", "backslash"])))
+        for _ in range(3):
+            scs.append(length_decode_scenario(rng, stats, "hyp"))
+        for _ in range(3):
+            scs.append(length_decode_scenario(rng, stats, "word"))
+        return scs
+    for v in VARIANTS:
+        need = esc_len(VARIANTS[v]) + 1
+        # every boundary value as a hypothesis-prefix length: chains of four targets with the smallest legal gap
+        todo = BOUNDARY[:]
+        while todo:
+            t, chain = todo.pop(0), []
+            chain.append(t)
+            for u in todo[:]:
+                if len(chain) < 4 and u - chain[-1] - 1 >= need:
+                    chain.append(u)
+                    todo.remove(u)
+            while len(chain) < 4:
+                chain.append(chain[-1] + need + 1)
+            scs.append(length_decode_scenario(rng, stats, "hyp", targets=chain, variant=v))
+        # every boundary value as a single spelling's length (segment words at level 0)
+        for i in range(0, len(BOUNDARY), 4):
+            lens = (BOUNDARY[i:i + 4] + BOUNDARY[:4])[:4]
+            scs.append(length_decode_scenario(rng, stats, "word", targets=lens, variant=v))
+    return scs
+
+
 def gen_scenario(rng, tier, stats, kind=None):
     kind = kind or rng.weighted([("jsgf", 3), ("align-special", 5), ("fsg-special", 4), ("noise", 2), ("lead-null", 2),
                                  ("empty-align", 2), ("no-grammar", 1), ("short", 1)])
@@ -638,10 +781,12 @@ def check(c):
         sc["ops"] = [o.replace("@REPO@", str(vlib.REPO)) for o in sc["ops"]]
         ncorp += 1
         ok_all &= judge(c, binp, sc, f"corpus {f.name}", totals)
-    n = 36 if c.tier == "quick" else 2000
+    n = 34 if c.tier == "quick" else 2000
     # every kind at least once, then random
     kinds = ["jsgf", "align-special", "fsg-special", "noise", "lead-null", "empty-align", "no-grammar", "short"]
-    scs = [gen_scenario(c.rng, c.tier, stats, kind=kinds[i] if i < len(kinds) else None) for i in range(n)]
+    scs = length_scenarios(c.rng, c.tier, stats)
+    n_len = len(scs)
+    scs += [gen_scenario(c.rng, c.tier, stats, kind=kinds[i] if i < len(kinds) else None) for i in range(n)]
     for i, sc in enumerate(scs[:3]):
         c.samples.append({"kind": sc["kind"], "ops": [o[:120] for o in sc["ops"][:12]] + ["..."]})
     distinct = set()
@@ -650,17 +795,22 @@ def check(c):
                 "alignment with zero words": 0, "alignment with words": 0, "state lists (level 2)": 0,
                 "hypothesis NULL": 0, "hypothesis present": 0,
                 "alignment word without phones": 0, "phone without states (level 2)": 0, "NULL word/name string": 0}
+    esc_hit = {"hypothesis string": set(), "segment word (level 0)": set(), "alignment word (level 1)": set(),
+               "alignment word (level 2)": set()}
     workers = 4 if c.tier == "quick" else 6
     for lo in range(0, len(scs), 120):
         chunk = scs[lo:lo + 120]
+        def work(sc):
+            rc, out, err = run_scenario(binp, sc)
+            findings, cases, cnt = evaluate(sc, rc, out, err)
+            div, ncmp = model_compare(cases) if lean_ok else ([], 0)
+            return findings, cases, cnt, div, ncmp
         with concurrent.futures.ThreadPoolExecutor(max_workers=workers) as ex:
-            futs = {ex.submit(run_scenario, binp, sc): sc for sc in chunk}
+            futs = {ex.submit(work, sc): sc for sc in chunk}
             results = {id(futs[f]): f.result() for f in concurrent.futures.as_completed(futs)}
         for j, sc in enumerate(chunk):
             i = lo + j
-            rc, out, err = results[id(sc)]
-            findings, cases, cnt = evaluate(sc, rc, out, err)
-            div, ncmp = model_compare(cases) if lean_ok else ([], 0)
+            findings, cases, cnt, div, ncmp = results[id(sc)]
             if findings or div:
                 if nviol < 3:          # re-run through judge for shrinking and reporting
                     ok_all &= judge(c, binp, sc, f"generated scenario {i} ({sc['kind']})", totals)
@@ -673,6 +823,12 @@ def check(c):
             totals["model_comparisons"] = totals.get("model_comparisons", 0) + ncmp
             for d, _ in cases:
                 distinct.add((d.text, d.level, d.frate))
+                if d.ret == "ok":
+                    esc_hit["hypothesis string"].add(esc_len(d.hyp or b""))
+                    if d.level == 0:
+                        esc_hit["segment word (level 0)"].update(esc_len(w or b"") for w, *_ in d.segs)
+                    else:
+                        esc_hit[f"alignment word (level {min(d.level, 2)})"].update(esc_len(w["name"] or b"") for w in d.al or [])
                 branches["hypothesis NULL" if d.hyp is None else "hypothesis present"] += 1
                 if d.level == 0:
                     branches["level 0, segments" if d.segs else "level 0, no segments"] += 1
@@ -701,6 +857,12 @@ def check(c):
                   "model_comparisons": totals.get("model_comparisons", 0),
                   "line_content": {k: v for k, v in totals.items() if k.startswith("lines_")},
                   "start_offsets": STARTS, "frame_rate_overrides": FRATES,
+                  "length_aimed_scenarios": n_len,
+                  "escaped_lengths_aimed_at": "every length 8..140 (plain / trailing quote) and " + str(BOUNDARY + BOUNDARY_BIG) +
+                                              " with trailing nothing/quote/backslash/control byte/2-byte UTF-8 character",
+                  "boundary_escaped_lengths_hit": {k: sorted(x for x in v if x in BOUNDARY or x in BOUNDARY_BIG or 8 <= x <= 140)
+                                                   for k, v in esc_hit.items()},
+                  "boundary_escaped_lengths_not_hit": {k: [x for x in BOUNDARY if x not in v] for k, v in esc_hit.items()},
                   "model_branches_hit": branches,
                   "model_branches_never_hit": [k for k, v in branches.items() if v == 0]})
 
